@@ -1,10 +1,178 @@
-(* Props/C01.v -- property theorems for C01 (packet wire format, flag word).
-   Only statements; every proof is `exact <lemma>`; Print Assumptions under each. *)
-From XMT Require Import Base.Prelude Model.Codec Model.Packet Proofs.Packet.
+(* Props/C01.v -- property theorems for C01 (packet wire format, stream form, flag word).
+   Only statements; every proof is `exact <lemma>`; Print Assumptions under each.
 
-Theorem C01_len_prefix_length :
-  forall l, 0 <= l ->
-  len (len_prefix l) = 1 + (if l =? 0 then 0 else if l <? 256 then 1 else if l <? 65536 then 2
-                            else if l <? 4294967296 then 4 else 8).
-Proof. exact len_prefix_length. Qed.
-Print Assumptions C01_len_prefix_length.
+   A reader works on a src (Model/Codec.v): the list of chunks the successive Read calls of the
+   underlying io.Reader deliver.  `no_empty s` = every Read delivers at least one byte; apart from
+   that the split of the bytes into chunks is ARBITRARY (universally quantified) in every theorem
+   below.  `concat s' = rest` in a conclusion says: exactly the written bytes were consumed. *)
+From XMT Require Import Base.Prelude Model.Codec Model.Packet Proofs.Codec Proofs.Packet.
+
+(* ---- Marshal ------------------------------------------------------------------------- *)
+Theorem C01_marshal_total : forall p, wf p = true -> marshal p = Ok (wire p).
+Proof. exact marshal_wf. Qed.
+Print Assumptions C01_marshal_total.
+
+Theorem C01_marshal_length : forall p b, wf p = true -> marshal p = Ok b ->
+  len b = 46 + (let l := len (p_pay p) in
+                if l =? 0 then 0 else if l <? 256 then 1 else if l <? 65536 then 2
+                else if l <? 4294967296 then 4 else 8)
+          + 4 * len (p_tags p) + len (p_pay p).
+Proof. exact marshal_length. Qed.
+Print Assumptions C01_marshal_length.
+
+Theorem C01_size_ge_marshal : forall p b, wf p = true -> marshal p = Ok b -> p_pay p <> [] -> len b <= size p.
+Proof. exact size_ge_marshal. Qed.
+Print Assumptions C01_size_ge_marshal.
+
+(* recorded: Size() of a packet without payload ignores its tags *)
+Theorem C01_size_empty_ignores_tags : forall p b, wf p = true -> marshal p = Ok b -> p_pay p = [] ->
+  size p = 46 /\ len b = 46 + 4 * len (p_tags p).
+Proof. exact size_empty_ignores_tags. Qed.
+Print Assumptions C01_size_empty_ignores_tags.
+
+(* ---- the wire form is lossless and self-delimiting -------------------------------------- *)
+Theorem C01_unmarshal_marshal : forall p b s rest,
+  wf p = true -> marshal p = Ok b -> no_empty s -> concat s = b ++ rest ->
+  exists s', unmarshal s = Ok (p, s') /\ concat s' = rest /\ no_empty s'.
+Proof. exact unmarshal_marshal. Qed.
+Print Assumptions C01_unmarshal_marshal.
+
+Theorem C01_packets_concat : forall ps bs s,
+  Forall (fun p => wf p = true) ps -> Forall2 (fun p b => marshal p = Ok b) ps bs ->
+  no_empty s -> concat s = concat bs ->
+  unmarshal_many (S (length (concat s))) s = Ok ps.
+Proof. exact packets_concat. Qed.
+Print Assumptions C01_packets_concat.
+
+Theorem C01_wire_prefix_free : forall p q r1 r2, wf p = true -> wf q = true ->
+  wire p ++ r1 = wire q ++ r2 -> p = q /\ r1 = r2.
+Proof. exact wire_prefix_free. Qed.
+Print Assumptions C01_wire_prefix_free.
+
+(* ---- the nested stream form ------------------------------------------------------------------ *)
+(* from a Chunk (the container of a batched packet) *)
+Theorem C01_unmarshal_stream_marshal_stream : forall p rest,
+  wf_stream p = true -> unmarshal_stream (marshal_stream p ++ rest) = Ok (p, rest).
+Proof. exact unmarshal_stream_marshal_stream. Qed.
+Print Assumptions C01_unmarshal_stream_marshal_stream.
+
+(* from data.NewReader over an io.Reader delivering short reads *)
+Theorem C01_unmarshal_srd_marshal_stream : forall p s rest,
+  wf_stream p = true -> no_empty s -> concat s = marshal_stream p ++ rest ->
+  exists s', unmarshal_srd s = Ok (p, s') /\ concat s' = rest /\ no_empty s'.
+Proof. exact (fun p s rest H => unmarshal_srd_marshal_stream p H s rest). Qed.
+Print Assumptions C01_unmarshal_srd_marshal_stream.
+
+(* the two readers of the nested form agree on EVERY input, malformed ones included (up to the error code) *)
+Theorem C01_stream_readers_agree : forall s, no_empty s ->
+  match unmarshal_stream (concat s), unmarshal_srd s with
+  | Ok (p, r), Ok (p', s') => p = p' /\ concat s' = r /\ no_empty s'
+  | Err _, Err _ => True
+  | Panic, Panic => True
+  | _, _ => False
+  end.
+Proof. exact stream_readers_agree. Qed.
+Print Assumptions C01_stream_readers_agree.
+
+Theorem C01_stream_packets_concat : forall ps, Forall (fun p => wf_stream p = true) ps ->
+  let b := concat (map marshal_stream ps) in unmarshal_stream_many (S (length b)) b = Ok ps.
+Proof. exact stream_packets_concat_check. Qed.
+Print Assumptions C01_stream_packets_concat.
+
+Theorem C01_marshal_stream_prefix_free : forall p q r1 r2, wf_stream p = true -> wf_stream q = true ->
+  marshal_stream p ++ r1 = marshal_stream q ++ r2 -> p = q /\ r1 = r2.
+Proof. exact marshal_stream_prefix_free. Qed.
+Print Assumptions C01_marshal_stream_prefix_free.
+
+(* ---- the flag word |len:16|pos:16|group:16|bits:16|: for ALL words f and all 16-bit n ---------- *)
+Theorem C01_len_set_len : forall f n, 0 <= n < 65536 -> flag_len (flag_set_len f n) = n.
+Proof. exact len_set_len. Qed.
+Print Assumptions C01_len_set_len.
+Theorem C01_position_set_len : forall f n, 0 <= n < 65536 -> flag_position (flag_set_len f n) = flag_position f.
+Proof. exact position_set_len. Qed.
+Print Assumptions C01_position_set_len.
+Theorem C01_group_set_len : forall f n, 0 <= n < 65536 -> flag_group (flag_set_len f n) = flag_group f.
+Proof. exact group_set_len. Qed.
+Print Assumptions C01_group_set_len.
+Theorem C01_bits_set_len : forall f n, 0 <= n < 65536 -> u16 (flag_set_len f n) = Z.lor (u16 f) FlagFrag.
+Proof. exact bits_set_len. Qed.
+Print Assumptions C01_bits_set_len.
+
+Theorem C01_len_set_position : forall f n, 0 <= n < 65536 -> flag_len (flag_set_position f n) = flag_len f.
+Proof. exact len_set_position. Qed.
+Print Assumptions C01_len_set_position.
+Theorem C01_position_set_position : forall f n, 0 <= n < 65536 -> flag_position (flag_set_position f n) = n.
+Proof. exact position_set_position. Qed.
+Print Assumptions C01_position_set_position.
+Theorem C01_group_set_position : forall f n, 0 <= n < 65536 -> flag_group (flag_set_position f n) = flag_group f.
+Proof. exact group_set_position. Qed.
+Print Assumptions C01_group_set_position.
+Theorem C01_bits_set_position : forall f n, 0 <= n < 65536 -> u16 (flag_set_position f n) = Z.lor (u16 f) FlagFrag.
+Proof. exact bits_set_position. Qed.
+Print Assumptions C01_bits_set_position.
+
+Theorem C01_len_set_group : forall f n, 0 <= n < 65536 -> flag_len (flag_set_group f n) = flag_len f.
+Proof. exact len_set_group. Qed.
+Print Assumptions C01_len_set_group.
+Theorem C01_position_set_group : forall f n, 0 <= n < 65536 -> flag_position (flag_set_group f n) = flag_position f.
+Proof. exact position_set_group. Qed.
+Print Assumptions C01_position_set_group.
+Theorem C01_group_set_group : forall f n, 0 <= n < 65536 -> flag_group (flag_set_group f n) = n.
+Proof. exact group_set_group. Qed.
+Print Assumptions C01_group_set_group.
+Theorem C01_bits_set_group : forall f n, 0 <= n < 65536 -> u16 (flag_set_group f n) = Z.lor (u16 f) FlagFrag.
+Proof. exact bits_set_group. Qed.
+Print Assumptions C01_bits_set_group.
+
+(* the bit part: Set / Unset of a 16-bit mask leave the three fragment fields alone *)
+Theorem C01_set_bits_independent : forall f n, 0 <= n < 65536 ->
+  flag_len (flag_set f n) = flag_len f /\ flag_position (flag_set f n) = flag_position f /\
+  flag_group (flag_set f n) = flag_group f /\ u16 (flag_set f n) = Z.lor (u16 f) n.
+Proof. exact (fun f n H => conj (len_set f n H) (conj (position_set f n H) (conj (group_set f n H) (bits_set f n H)))). Qed.
+Print Assumptions C01_set_bits_independent.
+Theorem C01_unset_bits_independent : forall f n, 0 <= n < 65536 ->
+  flag_len (flag_unset f n) = flag_len f /\ flag_position (flag_unset f n) = flag_position f /\
+  flag_group (flag_unset f n) = flag_group f /\ u16 (flag_unset f n) = Z.ldiff (u16 f) n.
+Proof. exact (fun f n H => conj (len_unset f n H) (conj (position_unset f n H) (conj (group_unset f n H) (bits_unset f n H)))). Qed.
+Print Assumptions C01_unset_bits_independent.
+
+Theorem C01_setters_in_range : forall f n, 0 <= n < 65536 ->
+  0 <= flag_set_len f n < 18446744073709551616 /\
+  0 <= flag_set_position f n < 18446744073709551616 /\
+  0 <= flag_set_group f n < 18446744073709551616.
+Proof. exact setters_in_range. Qed.
+Print Assumptions C01_setters_in_range.
+
+(* Clear, as the code has it *)
+Theorem C01_clear_fields_zero : forall f,
+  flag_len (flag_clear f) = 0 /\ flag_position (flag_clear f) = 0 /\ flag_group (flag_clear f) = 0.
+Proof. exact clear_fields_zero. Qed.
+Print Assumptions C01_clear_fields_zero.
+Theorem C01_clear_keeps_bits_of_frag : forall f, Z.testbit f 0 = true -> flag_clear f = Z.ldiff (u16 f) FlagFrag.
+Proof. exact clear_keeps_bits_of_frag. Qed.
+Print Assumptions C01_clear_keeps_bits_of_frag.
+(* recorded, not condemned by the property: Clear on a word WITHOUT the fragment bit sets it (XOR) *)
+Theorem C01_clear_sets_frag_when_absent : forall f, Z.testbit f 0 = false -> flag_clear f = Z.lor (u16 f) FlagFrag.
+Proof. exact clear_sets_frag_when_absent. Qed.
+Print Assumptions C01_clear_sets_frag_when_absent.
+Theorem C01_clear_after_setter : forall f n, 0 <= n < 65536 ->
+  flag_clear (flag_set_len f n) = Z.ldiff (u16 f) FlagFrag /\
+  flag_clear (flag_set_position f n) = Z.ldiff (u16 f) FlagFrag /\
+  flag_clear (flag_set_group f n) = Z.ldiff (u16 f) FlagFrag.
+Proof. exact clear_after_setter. Qed.
+Print Assumptions C01_clear_after_setter.
+
+(* ---- non-vacuity: a well-formed fragment packet with tags and payload, read back through
+   1-byte reads with trailing bytes; two packets on one stream; the flag word of the example ------ *)
+Definition ex_dev : list Z := [26;189;239;82;127;67;30;72;240;210;225;224;111;207;52;153;165;44;167;15;95;172;184;6;174;40;170;124;115;176;162;201].
+Definition ex_p : packet := mkP 240 4660 844429225558017 [3735928559; 1] ex_dev [104;101;108;108;111].
+Definition ex_q : packet := mkP 7 0 0 [] ex_dev (pay 3 300).
+Example C01_nonvacuous :
+  wf ex_p = true /\ wf_stream ex_p = true /\ wf ex_q = true /\
+  len (wire ex_p) = 46 + 1 + 8 + 5 /\ len (wire ex_q) = 46 + 2 + 300 /\
+  (do '(p, r) <- unmarshal (split (SEvery 1) (wire ex_p ++ [9;9;9])); Ok (p, concat r)) = Ok (ex_p, [9;9;9]) /\
+  unmarshal_many 9 (split (SEvery 7) (wire ex_p ++ wire ex_q)) = Ok [ex_p; ex_q] /\
+  (do '(p, r) <- unmarshal_srd (split (SEvery 3) (marshal_stream ex_p ++ [9])); Ok (p, concat r)) = Ok (ex_p, [9]) /\
+  flag_len (p_flags ex_p) = 3 /\ flag_position (p_flags ex_p) = 1 /\ flag_group (p_flags ex_p) = 7 /\
+  flag_set_position (p_flags ex_p) 2 = 844433520525313 /\ flag_clear (p_flags ex_p) = 0.
+Proof. vm_compute. repeat split; reflexivity. Qed.
